@@ -116,15 +116,18 @@ def prove(ctx, module, theorems, files):
     """lake build the property's module and the driver, audit axioms, grep for escapes."""
     # the generated parts of the model always reflect the tree under test NOW (a file left behind by a run against another
     # tree must never be built against); a translator that cannot read the source leaves its file as it is — the properties
-    # that depend on it run it themselves and report that
-    for name in ("extract_consts", "extract_guards", "extract_migration"):
-        try:
-            import importlib
-            importlib.import_module("harness." + name).run()
-        except Exception as e:  # noqa: BLE001
-            ctx.count("translator_failed:" + name)
-            ctx.notes.append(f"{name} failed: {type(e).__name__}: {e}")
-    ok, out, dt = lake.build([module, "d42model"])
+    # that depend on it run it themselves and report that. Regenerating, building and copying the driver is one critical
+    # section.
+    with lake.Lock():
+        for name in ("extract_consts", "extract_guards", "extract_migration"):
+            try:
+                import importlib
+                importlib.import_module("harness." + name).run()
+            except Exception as e:  # noqa: BLE001
+                ctx.count("translator_failed:" + name)
+                ctx.notes.append(f"{name} failed: {type(e).__name__}: {e}")
+        ok, out, dt = lake.build([module, "d42model"])
+        ax_result = lake.audit(module, theorems, ctx.prop) if ok else None
     ctx.cov["lake_build_s"] = round(dt, 2)
     if not ok:
         tail = "\n".join(l for l in out.splitlines() if "error" in l.lower())[:3000]
@@ -135,7 +138,7 @@ def prove(ctx, module, theorems, files):
     hits = lake.grep_forbidden(files)
     if hits:
         ctx.breakage("audit", "forbidden construct in Lean sources", hits=hits[:10])
-    ax, raw = lake.audit(module, theorems, ctx.prop)
+    ax, raw = ax_result
     good = True
     for t in theorems:
         a = ax.get(t)
